@@ -310,7 +310,15 @@ static int alloc_gate(void *ra)
 	uintptr_t a = (uintptr_t)ra;
 	if (a < exe_lo || a >= exe_hi) return 0;
 	++n_alloc;
-	return alloc_fail_at && n_alloc == alloc_fail_at;
+	if (alloc_fail_at && n_alloc == alloc_fail_at) {
+		if (getenv("VP_ALLOC_TRACE")) {
+			char msg[96];
+			int n = snprintf(msg, sizeof msg, "VP_ALLOC_TRACE failing allocation called from +0x%lx\n", (unsigned long)(a - exe_lo));
+			r_write(2, msg, n);
+		}
+		return 1;
+	}
+	return 0;
 }
 void *malloc(size_t n) { if (alloc_gate(__builtin_return_address(0))) { errno = ENOMEM; return NULL; } return __libc_malloc(n); }
 void *calloc(size_t a, size_t b) { if (alloc_gate(__builtin_return_address(0))) { errno = ENOMEM; return NULL; } return __libc_calloc(a, b); }
